@@ -2,14 +2,18 @@
 import itertools
 from ..driver import Part
 from .. import common as C
-from .cluster_common import member_coq, nats, mem
+from .cluster_common import member_coq, nats, mem, agent_obs_coq
 
-COQ_FILES = ["Agent.v", "AgentProofs.v", "Provider.v", "ProviderProofs.v", "ProviderExec.v", "PropsCluster.v"]
+COQ_FILES = ["Agent.v", "AgentProofs.v", "Provider.v", "ProviderProofs.v", "ProviderExec.v", "PropsCluster.v",
+             "ClusterCompose.v", "ClusterComposeProofs.v", "ClusterComposeExec.v", "PropsClusterCompose.v"]
 THEOREMS = ["C20_handshake", "C20_members", "C20_leave_removes_exactly_that_member",
             "C20_leave_shared_address_removes_one", "C20_leave_unknown_is_noop", "C20_no_panic",
             "C20_leave_unknown_pinned_refuted", "C20_self_stays_member", "C20_member_list_is_spec",
             "C20_leave_any_choice", "C20_leave_choice_realised", "C20_repeated_reports",
-            "C20_oracle_holds_of_model", "C20_driven_model_reproduces_itself"]
+            "C20_oracle_holds_of_model", "C20_driven_model_reproduces_itself",
+            "C18_C20_members_follow_the_provider", "C18_C20_view_is_provider_list", "C18_C20_events_follow_provider",
+            "C18_C20_snapshots_contain_self", "C18_C20_every_snapshot_step_ok", "C18_C20_has_kind_follows_provider",
+            "C18_C20_oracle_holds_of_model"]
 RULE = ("histories of provider messages fed to the real SelfManaged receiver (mDNS switched off by the hook, a "
         "recording actor in the agent's place, an in-memory Remoter as the network): handshake from a peer, "
         "member list, RemoteUnreachableEvent broadcast on the engine (turned into memberLeave by the provider's own "
@@ -27,7 +31,11 @@ RULE = ("histories of provider messages fed to the real SelfManaged receiver (mD
         "comparison is exact and order-independent. Observation at start-up and after each message: "
         "the member lists the agent stub received, the list sent back to the handshaking peer, the provider's "
         "member list (hook), panic / ActorRestartedEvent. A case is non-trivial when the model replay reaches a "
-        "proof-relevant branch; distinct = distinct (self, history)")
+        "proof-relevant branch; distinct = distinct (self, history). Part 'node' (C18 o C20): the same kinds of "
+        "histories (addresses not shared: exhaustive up to length 2, 3 in the thorough tier, plus random ones) fed to "
+        "the real provider and the real agent of one cluster.Cluster together; after start-up and after each message "
+        "the agent's Members(), HasKind(k) and the MemberJoin/MemberLeave events are compared with the composed model "
+        "and with what the composed theorem predicts from the provider's list alone")
 TRUSTED_BASE = [
     "Coq 8.16.1 kernel; vm_compute (used to evaluate model and reference on the cases); no native_compute",
     "axioms: none (Print Assumptions below); std++ gmap/gset",
@@ -193,4 +201,31 @@ class Provider(Part):
         return out
 
 
-PARTS = [Provider()]
+class Node(Part):
+    """the real provider and the real agent of one node together (C18 o C20)"""
+    name = "node"
+    family = "node1820"
+    exec_module = "ClusterComposeExec"
+    shard = 120
+    branch_names = {1: "message_sends_agent_nothing", 2: "snapshot_with_join", 3: "snapshot_with_leave",
+                    4: "snapshot_changes_nothing", 5: "kind_disappears", 6: "kind_appears"}
+
+    def generate(self, rng, tier):
+        base = Provider().generate(rng, tier)
+        maxlen = 2 if tier == "quick" else 3
+        ex = [c for c in base if c["class"] == "exhaustive" and len(c["input"]["hist"]) <= maxlen]
+        rnd = [c for c in base if c["class"] == "random"]
+        if tier == "quick":
+            rnd = rnd[:150]
+        return ex + rnd
+
+    def to_coq(self, inp, obs):
+        return "{| c_self := %s; c_hist := %s; c_obs := %s |}" % (
+            member_coq(inp["self"]), C.clist([msg_coq(h) for h in inp["hist"]]),
+            C.clist([agent_obs_coq(o) for o in obs]))
+
+    def shrink(self, inp):
+        return Provider().shrink(inp)
+
+
+PARTS = [Provider(), Node()]
